@@ -184,12 +184,60 @@ SimAlloc::SimAlloc() : frng(1)
 
 SimAlloc::~SimAlloc() { purge(); }
 
+SimAlloc::LiveTable::LiveTable()
+{
+	cap = 1u << 16;
+	slots = (Slot *)mmap(nullptr, cap * sizeof(Slot), PROT_READ | PROT_WRITE, MAP_PRIVATE | MAP_ANONYMOUS, -1, 0);
+	if (slots == MAP_FAILED) { perror("mmap"); abort(); }
+}
+SimAlloc::LiveTable::~LiveTable() { munmap(slots, cap * sizeof(Slot)); }
+static inline size_t ptr_hash(void *p) { uint64_t x = (uint64_t)(uintptr_t)p; x ^= x >> 33; x *= 0xff51afd7ed558ccdull; x ^= x >> 33; return (size_t)x; }
+SimAlloc::Blk *SimAlloc::LiveTable::find(void *p)
+{
+	size_t i = ptr_hash(p) & (cap - 1);
+	for (size_t k = 0; k < cap; ++k, i = (i + 1) & (cap - 1)) {
+		if (slots[i].ptr == nullptr) return nullptr;
+		if (slots[i].ptr == p) return &slots[i].blk;
+	}
+	return nullptr;
+}
+void SimAlloc::LiveTable::clear()
+{
+	memset(slots, 0, cap * sizeof(Slot));
+	n = 0; used = 0;
+}
+void SimAlloc::LiveTable::insert(void *p, const Blk &b)
+{
+	if (used * 2 > cap) {
+		// rebuild in place without tombstones (rare: > 32k allocations in one run)
+		std::vector<Slot> keep;
+		for (size_t i = 0; i < cap; ++i) if ((uintptr_t)slots[i].ptr > 1) keep.push_back(slots[i]);
+		if (keep.size() * 2 > cap) { fprintf(stderr, "SimAlloc: live table full\n"); abort(); }
+		clear();
+		for (auto &s : keep) insert(s.ptr, s.blk);
+	}
+	size_t i = ptr_hash(p) & (cap - 1);
+	while ((uintptr_t)slots[i].ptr > 1) i = (i + 1) & (cap - 1);
+	if (slots[i].ptr == nullptr) ++used;
+	slots[i].ptr = p;
+	slots[i].blk = b;
+	++n;
+}
+void SimAlloc::LiveTable::erase(void *p)
+{
+	size_t i = ptr_hash(p) & (cap - 1);
+	for (size_t k = 0; k < cap; ++k, i = (i + 1) & (cap - 1)) {
+		if (slots[i].ptr == nullptr) return;
+		if (slots[i].ptr == p) { slots[i].ptr = (void *)1; --n; return; }
+	}
+}
+
 void SimAlloc::purge()
 {
-	for (auto &e : live) {
-		if (e.second.big) munmap(e.first, e.second.size);
-		else free(e.first);
-	}
+	live.each([](void *p, Blk &b) {
+		if (b.big) munmap(p, b.size);
+		else free(p);
+	});
 	live.clear();
 	cur = 0;
 }
@@ -218,7 +266,7 @@ void *SimAlloc::s_alloc(void *opaque, size_t nmemb, size_t size)
 		// stable, visible garbage for reads of uninitialised memory
 		memset(p, 0xA5, n);
 	}
-	self->live[p] = Blk{ n, self->seq, big };
+	self->live.insert(p, Blk{ n, self->seq, big });
 	self->cur += n;
 	if (self->cur > self->peak) self->peak = self->cur;
 	return p;
@@ -228,17 +276,18 @@ void SimAlloc::s_free(void *opaque, void *ptr)
 {
 	SimAlloc *self = (SimAlloc *)opaque;
 	if (!ptr) return;   // lzma_free(NULL) is allowed (forwarded like free())
-	auto it = self->live.find(ptr);
-	if (it == self->live.end()) {
+	Blk *b = self->live.find(ptr);
+	if (!b) {
 		if (self->misuse.empty())
 			self->misuse = "free of a pointer that is not live (double free or foreign pointer)";
 		return;
 	}
 	++self->total_frees;
-	self->cur -= it->second.size;
-	if (it->second.big) munmap(ptr, it->second.size);
-	else { memset(ptr, 0xDD, it->second.size); free(ptr); }
-	self->live.erase(it);
+	Blk blk = *b;
+	self->cur -= blk.size;
+	self->live.erase(ptr);
+	if (blk.big) munmap(ptr, blk.size);
+	else { memset(ptr, 0xDD, blk.size); free(ptr); }
 }
 
 // ---------------------------------------------------------------- Data
